@@ -668,6 +668,10 @@ class err_gs(err_node):
         for child in self.children:
             if child.get_error_count() > 0:
                 return 'R'
+        for ele in self.elements:
+            # errors on the elements of the GS and GE segments themselves
+            if ele.get_error_count() > 0:
+                return 'R'
         #err_codes = map(lambda x:x[0], self.errors)
         #if '1' in err_codes: return 'R'
         #elif '2' in err_codes: return 'R'
@@ -814,7 +818,9 @@ class err_st(err_node):
         seg_err_ct = 0
         if self.child_err_count() > 0:
             seg_err_ct = 1
-        return len(self.errors) + seg_err_ct
+        # errors on the elements of the ST and SE segments themselves
+        ele_err_ct = sum([ele.get_error_count() for ele in self.elements])
+        return len(self.errors) + seg_err_ct + ele_err_ct
 
     def get_error_count(self):
         return self.err_count()
